@@ -13,6 +13,7 @@ From V Require Import Gen.FeedConst Model.Feed Spec.LineEndings.
 From V Require Import Base.Bytes Base.Res Gen.Tables Model.Escape Spec.EscapeSpec Model.Ast.
 From V Require Import Gen.NodesXml Model.Xml Spec.XmlLex.
 From V Require Import Gen.Cli Model.CliModel Spec.CliDoc.
+From V Require Import Gen.Tagfilter Model.Tagfilter Spec.GfmFilter.
 Extraction Language OCaml.
 Set Extraction KeepSingleton.
 
@@ -140,4 +141,15 @@ Extraction "model.ml"
   CliDoc.nonutf8_argv_with_config
   CliDoc.double_dash_config
   CliDoc.unknown_theme
+  Tagfilter.tagfilter
+  Tagfilter.tagfilter_block
+  Tagfilter.html_block_payload
+  Tagfilter.html_inline_payload
+  GfmFilter.disallowed_at
+  GfmFilter.gfm_filter
+  GfmFilter.lt_escape_first
+  GfmFilter.any_disallowed
+  GfmFilter.disallowed_at_narrow
+  GfmFilter.gfm_filter_narrow
+  GfmFilter.lt_expansion
 .
